@@ -157,7 +157,9 @@ func serveScripted(script []string, chunks [][]byte, ending string) (ev string, 
 		}()
 		srv.VerifServeConn(conn, "peer-addr", "")
 	}()
-	if len(events) == 0 || events[len(events)-1] != "panic" {
+	if conn.Spun {
+		events = append(events, "spin")
+	} else if len(events) == 0 || events[len(events)-1] != "panic" {
 		if conn.IsClosed() {
 			events = append(events, "closed")
 		} else {
